@@ -47,6 +47,8 @@ pub enum Family {
     OLeary,
     /// n decays, no offset (P = M = n), for the schedule exploration with 4 and 5 Jacobian columns
     ExpN(usize),
+    /// e^{-p0 x} cos(p1 x + p2) (1 + p3 x) DECLARED as f(p0, p2, p1, p3) (interior permuted), e^{-p3 x}, 1
+    Perm4,
     /// hand-written only
     PolyMat(Arc<PolySpec>),
     /// M x P incidence (row j = parameters used by function j)
@@ -62,6 +64,7 @@ impl Family {
             Family::GaussDecayOff => "GaussDecayOff".into(),
             Family::OLeary => "OLeary".into(),
             Family::ExpN(n) => format!("ExpN{}", n),
+            Family::Perm4 => "Perm4".into(),
             Family::PolyMat(s) => format!("PolyMat{}x{}x{}", s.n, s.m, s.p),
             Family::GenProd { m, p, inc } => {
                 let mut s = format!("GenProd{}x{}:", m, p);
@@ -85,6 +88,7 @@ impl Family {
             Family::GaussDecayOff => 3,
             Family::OLeary => 2,
             Family::ExpN(n) => *n,
+            Family::Perm4 => 3,
             Family::PolyMat(s) => s.m,
             Family::GenProd { m, .. } => *m,
         }
@@ -97,6 +101,7 @@ impl Family {
             Family::GaussDecayOff => 3,
             Family::OLeary => 3,
             Family::ExpN(n) => *n,
+            Family::Perm4 => 4,
             Family::PolyMat(s) => s.p,
             Family::GenProd { p, .. } => *p,
         }
@@ -129,12 +134,56 @@ impl Family {
                 0 => vec![2, 1],
                 _ => vec![0, 1],
             },
+            Family::Perm4 => match j {
+                0 => vec![0, 2, 1, 3],
+                1 => vec![3],
+                _ => vec![],
+            },
             Family::PolyMat(s) => (0..s.p).collect(),
             Family::GenProd { p, inc, .. } => (0..*p).filter(|&k| inc[j][k]).collect(),
         }
     }
     pub fn can_build(&self) -> bool {
         !matches!(self, Family::PolyMat(_))
+    }
+}
+
+impl Family {
+    /// complete, replayable description
+    pub fn to_json(&self) -> serde_json::Value {
+        use serde_json::json;
+        match self {
+            Family::GenProd { m, p, inc } => json!({"m": m, "p": p, "inc": inc.iter().map(|r| r.to_vec()).collect::<Vec<_>>()}),
+            Family::PolyMat(s) => json!({"polymat": {"n": s.n, "m": s.m, "p": s.p, "a0": s.a0, "a": s.a, "b": s.b}}),
+            o => json!(o.name()),
+        }
+    }
+    /// inverse of `to_json` (also accepts the bare names)
+    pub fn from_json(v: &serde_json::Value) -> Family {
+        if let Some(s) = v.as_str() {
+            return match s {
+                "Exp1Off" => Family::Exp1Off,
+                "Exp2Off" => Family::Exp2Off,
+                "Exp3" => Family::Exp3,
+                "GaussDecayOff" => Family::GaussDecayOff,
+                "OLeary" => Family::OLeary,
+                "Perm4" => Family::Perm4,
+                o if o.starts_with("ExpN") => Family::ExpN(o[4..].parse().expect("ExpN<n>")),
+                o => panic!("family {}", o),
+            };
+        }
+        if let Some(q) = v.get("polymat") {
+            let fv = |x: &serde_json::Value| -> Vec<f64> { x.as_array().unwrap().iter().map(|t| t.as_f64().unwrap()).collect() };
+            let fvv = |x: &serde_json::Value| -> Vec<Vec<f64>> { x.as_array().unwrap().iter().map(|t| fv(t)).collect() };
+            return Family::PolyMat(Arc::new(PolySpec { n: q["n"].as_u64().unwrap() as usize, m: q["m"].as_u64().unwrap() as usize, p: q["p"].as_u64().unwrap() as usize, a0: fv(&q["a0"]), a: fvv(&q["a"]), b: fvv(&q["b"]) }));
+        }
+        let mut inc = [[false; 3]; 3];
+        for (j, r) in v["inc"].as_array().expect("family description").iter().enumerate() {
+            for (k, b) in r.as_array().unwrap().iter().enumerate() {
+                inc[j][k] = b.as_bool().unwrap();
+            }
+        }
+        Family::GenProd { m: v["m"].as_u64().unwrap() as usize, p: v["p"].as_u64().unwrap() as usize, inc }
     }
 }
 
@@ -190,6 +239,11 @@ pub fn phi<T: Sc>(fam: &Family, j: usize, i: usize, x: T, a: &[T]) -> T {
         Family::OLeary => match j {
             0 => Float::exp(-(a[1] * x)) * Float::cos(a[2] * x),
             _ => Float::exp(-(a[0] * x)) * Float::cos(a[1] * x),
+        },
+        Family::Perm4 => match j {
+            0 => Float::exp(-(a[0] * x)) * Float::cos(a[1] * x + a[2]) * (T::f(1.0) + a[3] * x),
+            1 => Float::exp(-(a[3] * x)),
+            _ => T::f(1.0),
         },
         Family::PolyMat(s) => {
             let idx = i * s.m + j;
@@ -263,6 +317,19 @@ pub fn dphi<T: Sc>(fam: &Family, j: usize, k: usize, i: usize, x: T, a: &[T]) ->
             (1, 1) => -x * Float::exp(-(a[0] * x)) * Float::sin(a[1] * x),
             _ => zero,
         },
+        Family::Perm4 => {
+            let e = Float::exp(-(a[0] * x));
+            let arg = a[1] * x + a[2];
+            let l = T::f(1.0) + a[3] * x;
+            match (j, k) {
+                (0, 0) => -x * e * Float::cos(arg) * l,
+                (0, 1) => -x * e * Float::sin(arg) * l,
+                (0, 2) => -(e * Float::sin(arg) * l),
+                (0, 3) => x * e * Float::cos(arg),
+                (1, 3) => -x * Float::exp(-(a[3] * x)),
+                _ => zero,
+            }
+        }
         Family::PolyMat(s) => {
             let idx = i * s.m + j;
             T::f(s.a[k][idx]) + T::f(2.0) * a[k] * T::f(s.b[k][idx])
@@ -462,6 +529,7 @@ pub fn build_separable<T: Sc>(spec: &ModelSpec, a0: &[T]) -> SeparableModel<T> {
             1 => addf!(a),
             2 => addf!(a, b2),
             3 => addf!(a, b2, c),
+            4 => addf!(a, b2, c, d),
             _ => unreachable!(),
         }
     }
